@@ -7,6 +7,7 @@ run_one() {
   id=$1; prop=$(python3 -c "import json;print(json.load(open('/verif/seeded/$id/meta.json'))['property'])")
   tags=$(python3 -c "import json;print(json.load(open('/verif/seeded/$id/meta.json')).get('demo_build_tags','') or '')")
   tier=quick; [ -n "$tags" ] && [ "$tags" != "RACE" ] && tier=thorough
+  if python3 -c "import json,sys;sys.exit(0 if json.load(open('/verif/seeded/$id/meta.json')).get('obsolete') else 1)"; then echo "$id $prop obsolete (target code removed by a fix)"; return; fi
   if ! grep -q "\"$prop\"" /verif/MANIFEST.json || ! python3 -c "import json,sys;sys.exit(0 if any(c['property_id']=='$prop' for c in json.load(open('/verif/MANIFEST.json'))['checks']) else 1)"; then echo "$id $prop not-claimed"; return; fi
   out=$(LINES_MAX=1 /verif/tools/try_seed.sh $id $prop $tier 2>&1)
   if echo "$out" | grep -q "exit=1"; then echo "$id $prop caught: $(echo "$out" | head -1 | cut -c1-160)"; else echo "$id $prop MISSED"; fi
